@@ -2,6 +2,7 @@ package main
 
 import (
 	"bytes"
+	"os"
 	"fmt"
 	"go/ast"
 	"go/constant"
@@ -55,6 +56,9 @@ var t1PathArgs = map[string]struct {
 }
 
 func runC06(c *Ctx) {
+	if os.Getenv("PSA_DEBUG_T1") != "" {
+		c.t1Debug()
+	}
 	info := c.info("type1")
 	// charstrings and subroutines arrive as `n RD ~n~binary~bytes~`: RD is readstring
 	c.scannerOperators(c.interp(), c.registry(), "T1-BINARY", "readstring")
@@ -76,34 +80,8 @@ func runC06(c *Ctx) {
 		v, _ := constant.Int64Val(obj.Val())
 		c.check(v == t1Spec[n].code, "T1-OPCODES", n, fmt.Sprintf("= %d (Type 1 book, appendix 2)", t1Spec[n].code), obj.Pos(), fmt.Sprint(v), fmt.Sprintf("opcode %s is %d, the Type 1 book says %d", n, v, t1Spec[n].code))
 	}
-	// escape prefix: op == 12 → op<<8 | next
-	{
-		okEsc := false
-		ast.Inspect(decFD.Body, func(n ast.Node) bool {
-			ifs, ok := n.(*ast.IfStmt)
-			if !ok {
-				return true
-			}
-			be, ok := ifs.Cond.(*ast.BinaryExpr)
-			if !ok || be.Op != token.EQL {
-				return true
-			}
-			if k, ok := constIntOf(info, be.Y); ok && k == 12 {
-				ast.Inspect(ifs.Body, func(m ast.Node) bool {
-					if b2, ok := m.(*ast.BinaryExpr); ok && b2.Op == token.OR {
-						if sh, ok := b2.X.(*ast.BinaryExpr); ok && sh.Op == token.SHL {
-							if k8, ok := constIntOf(info, sh.Y); ok && k8 == 8 {
-								okEsc = true
-							}
-						}
-					}
-					return true
-				})
-			}
-			return true
-		})
-		c.check(okEsc, "T1-OPCODES", fname, "two-byte commands: 12 followed by the sub-code", decFD.Pos(), "op == 12 → op<<8 | next byte", "the escape prefix 12 for two-byte commands is not decoded as (12<<8 | next)")
-	}
+	// the command table: arity, clearing, path arguments, unknown commands, two-byte commands
+	c.t1CommandTable()
 
 	// ---- the command switch
 	var sw *ast.SwitchStmt
@@ -120,35 +98,14 @@ func runC06(c *Ctx) {
 		return
 	}
 	clauses := map[string]*ast.CaseClause{}
-	var def *ast.CaseClause
 	for _, cc := range sw.Body.List {
 		cl := cc.(*ast.CaseClause)
-		if cl.List == nil {
-			def = cl
-		}
 		for _, e := range cl.List {
 			if id, ok := e.(*ast.Ident); ok {
 				clauses[id.Name] = cl
 			}
 		}
 	}
-	var missing []string
-	for _, n := range names {
-		if clauses[n] == nil {
-			missing = append(missing, n)
-		}
-	}
-	c.check(len(missing) == 0, "T1-DISPATCH", fname, "every documented command has a handler", sw.Pos(), fmt.Sprintf("%d cases", len(clauses)), "no handler for "+strings.Join(missing, ", "))
-	okDef := false
-	if def != nil && len(def.Body) > 0 {
-		if r, ok := def.Body[len(def.Body)-1].(*ast.ReturnStmt); ok && len(r.Results) == 2 {
-			if id, ok := r.Results[1].(*ast.Ident); !ok || id.Name != "nil" {
-				okDef = true
-			}
-		}
-	}
-	c.check(okDef, "T1-DISPATCH", fname, "unknown commands are an error", sw.Pos(), "default: return nil, error", "the default case of the command switch does not return an error")
-
 	// helpers: closures rLineTo / rMoveTo / rCurveTo identified by what they append
 	helperKind := map[types.Object]string{}
 	ast.Inspect(decFD.Body, func(n ast.Node) bool {
@@ -204,101 +161,7 @@ func runC06(c *Ctx) {
 		return true
 	})
 
-	stackDepthUse := func(cl *ast.CaseClause) (guard int64, maxIdx int64, hasGuard bool, usesTop bool) {
-		maxIdx = -1
-		ast.Inspect(cl, func(n ast.Node) bool {
-			switch n := n.(type) {
-			case *ast.IfStmt:
-				if be, ok := n.Cond.(*ast.BinaryExpr); ok && be.Op == token.LSS {
-					if call, ok := be.X.(*ast.CallExpr); ok && types.ExprString(call) == "len(stack)" {
-						if k, ok := constIntOf(info, be.Y); ok && !hasGuard {
-							guard, hasGuard = k, true
-						}
-					}
-				}
-			case *ast.IndexExpr:
-				if id, ok := n.X.(*ast.Ident); ok && id.Name == "stack" {
-					if k, ok := constIntOf(info, n.Index); ok {
-						if k > maxIdx {
-							maxIdx = k
-						}
-					} else {
-						usesTop = true
-					}
-				}
-			}
-			return true
-		})
-		return
-	}
-	for _, n := range names {
-		cl := clauses[n]
-		if cl == nil {
-			continue
-		}
-		spec := t1Spec[n]
-		guard, maxIdx, hasGuard, _ := stackDepthUse(cl)
-		if spec.args == 0 {
-			c.check(maxIdx < 0, "T1-ARITY", fname, n+": takes no operands", cl.Pos(), "no operand read", fmt.Sprintf("%s reads operand %d although the book gives it no operands", n, maxIdx))
-		} else {
-			c.check(hasGuard && guard == int64(spec.args) && maxIdx < guard, "T1-ARITY", fname, fmt.Sprintf("%s: %d operand(s) demanded before any is read", n, spec.args), cl.Pos(), fmt.Sprintf("len(stack) < %d guard; highest operand index %d", guard, maxIdx),
-				fmt.Sprintf("%s: the operand guard is `len(stack) < %d` (present: %v) and the highest operand read is stack[%d]; the book gives the command %d operand(s)", n, guard, hasGuard, maxIdx, spec.args))
-		}
-		// clearing
-		clears := false
-		ast.Inspect(cl, func(m ast.Node) bool {
-			if call, ok := m.(*ast.CallExpr); ok {
-				if id, ok := call.Fun.(*ast.Ident); ok && helperKind[info.ObjectOf(id)] == "clear" {
-					clears = true
-				}
-			}
-			return true
-		})
-		if spec.clears {
-			c.check(clears, "T1-CLEAR", fname, n+": clears the operand stack", cl.Pos(), "clearStack()", n+" does not clear the operand stack: left-over operands shift the operands of every following command")
-		} else {
-			c.check(!clears, "T1-CLEAR", fname, n+": leaves the operand stack for the following command", cl.Pos(), "no clearStack()", n+" clears the operand stack although its results/remaining operands are needed by what follows")
-		}
-		// path argument mapping
-		if pa, ok := t1PathArgs[n]; ok {
-			var got []int
-			var gotHelper string
-			ast.Inspect(cl, func(m ast.Node) bool {
-				call, ok := m.(*ast.CallExpr)
-				if !ok {
-					return true
-				}
-				id, ok := call.Fun.(*ast.Ident)
-				if !ok {
-					return true
-				}
-				k := helperKind[info.ObjectOf(id)]
-				if k != "move" && k != "line" && k != "curve" {
-					return true
-				}
-				gotHelper = k
-				got = nil
-				for _, a := range call.Args {
-					if ix, ok := a.(*ast.IndexExpr); ok {
-						if kk, ok := constIntOf(info, ix.Index); ok {
-							got = append(got, int(kk))
-							continue
-						}
-					}
-					if v, ok := constIntOf(info, a); ok && v == 0 {
-						got = append(got, -1)
-						continue
-					}
-					got = append(got, -99)
-				}
-				return true
-			})
-			c.check(gotHelper == pa.helper && fmt.Sprint(got) == fmt.Sprint(pa.args), "T1-PATHARGS", fname, n+": operands mapped to the relative "+pa.helper+" as the book says", cl.Pos(), fmt.Sprint(got),
-				fmt.Sprintf("%s calls the relative %s with operands %v (−1 = 0); the book prescribes %s %v", n, gotHelper, got, pa.helper, pa.args))
-		}
-	}
-
-	c.flexRules(info, decFD, clauses, helperKind)
+	c.t1FlexRules()
 	c.subrRules(info, clauses)
 	c.charstringDecryption()
 	c.readDefaults()
